@@ -8,7 +8,6 @@ import (
 	"go/types"
 	"os"
 	"runtime"
-	"runtime/debug"
 	"sort"
 	"strings"
 	"sync"
@@ -160,6 +159,7 @@ type pathCtx struct {
 	fresh     int
 	now       value
 	hashApps  []hashApp
+	initIncomplete []string
 	tier      int
 }
 
@@ -322,24 +322,24 @@ func (e *Explorer) runPath(solver *Solver, prefix []int) (x *pathCtx) {
 				outcome = "unsupported"
 				e.noteInconclusive("unsupported: " + p.msg)
 				if e.opts.Trace {
-					fmt.Fprintf(os.Stderr, "unsupported: %s\n%s\n", p.msg, i.stackString())
+					fmt.Fprintf(os.Stderr, "unsupported: %s\n%s\n", p.msg, i.panicStack)
 				}
 			case targetPanic:
 				outcome = "panic"
-				x.violation("panic", "panic: "+x.panicString(i, p.v), "", nil, i.stackString())
+				x.violation("panic", "panic: "+x.panicString(i, p.v), "", nil, i.panicStack)
 			case runtime.Error:
 				outcome = "panic"
-				st := i.stackString()
+				st := i.panicStack
 				if e.opts.Trace {
-					fmt.Fprintf(os.Stderr, "runtime error in interpreter: %v\n%s\n%s\n", p, st, debug.Stack())
+					fmt.Fprintf(os.Stderr, "runtime error in interpreter: %v\n%s\n%s\n", p, st, i.panicGoStack)
 				}
 				x.violation("panic", "panic: "+p.Error(), "", nil, st)
 			case string:
 				outcome = "panic"
-				x.violation("panic", "panic: "+p, "", nil, i.stackString())
+				x.violation("panic", "panic: "+p, "", nil, i.panicStack)
 			default:
 				outcome = "panic"
-				x.violation("panic", fmt.Sprintf("panic: %v", p), "", nil, i.stackString())
+				x.violation("panic", fmt.Sprintf("panic: %v", p), "", nil, i.panicStack)
 			}
 		}()
 		call(i, nil, token.NoPos, e.fn, nil)
